@@ -238,7 +238,7 @@ class DForest(Extra):
                 return 'dropped', None
             obs.append(vals)
         if ifail != mfail:
-            return 'violation', dict(det, shape='forest:raises', expected={'source': 'DenseOnlineForest.forest_run (C12_dense_raises)', 'update_that_raises': mfail},
+            return 'model-differs', dict(det, shape='forest:raises', expected={'source': 'DenseOnlineForest.forest_run (C12_dense_raises)', 'update_that_raises': mfail},
                                      observed={'update_that_raises': ifail, 'outcome': None if ifail is None else r['calls'][ifail * stride]})
         self.stats['cases'] += 1
         if ifail is not None:
@@ -258,7 +258,7 @@ class DForest(Extra):
                 what = 'update()' if k == 0 else ('get_value(%s)' % c['prog'][k - 1][0] if k <= np_ else
                                                   'get_value(name of the node %s of assertion %d: %s)' % (c['qpaths'][k - 1 - np_][1], c['qpaths'][k - 1 - np_][0],
                                                                                                           dense.dense_formula_text(self.queries(c)[k - 1 - np_])))
-                return 'violation', dict(det, shape='forest:value', update=j, what=what,
+                return 'model-differs', dict(det, shape='forest:value', update=j, what=what,
                                          expected={'source': 'DenseOnlineForest (C12_dense_get_online / C09_dense_online), ticks', 'value': exp[k] if k < len(exp) else None},
                                          observed={'ticks': obs[j][k]})
             self.stats['updates_compared'] += 1
